@@ -15,6 +15,7 @@ are used with the right *byte* layouts, that `Arc`'s counter is atomic and the a
 same operations may run on another thread) is checked dynamically (tracking allocator) or trusted (DESIGN §2).
 -/
 import MetricsVerif.Proofs.Cow
+import MetricsVerif.Generated.SourceFacts
 
 namespace MetricsVerif.C14
 open MetricsVerif.Cow
@@ -65,12 +66,25 @@ def isOk {α} : Except Err α → Bool
   | .ok _ => true
   | .error _ => false
 
+def errIs {α} (x : Except Err α) (e : Err) : Bool :=
+  match x with
+  | .error e' => e' == e
+  | .ok _ => false
+
+/-- the step is rejected as a use of a dead / foreign `Arc` block -/
+def errIsArc {α} : Except Err α → Prop
+  | .error .arcUseAfterFree => True
+  | _ => False
+
+instance {α} (x : Except Err α) : Decidable (errIsArc x) := by
+  unfold errIsArc; split <;> infer_instance
+
 /-- a well-formed operation (live handles, held `Arc`s, owned values that are `Vec`s) always succeeds -/
 theorem step_wf {s : St} (hI : Inv s) (op : Op) (hw : wfOp s op = true) : isOk (step s op) = true := by
   cases op with
   | newArc c =>
     have : ¬ usizeMax ≤ c.length := by simp [wfOp] at hw; omega
-    (simp only [step, this, if_false]; try rfl)
+    (simp only [step, stepClone, stepIntoOwned, this, if_false]; try rfl)
   | dropArc a =>
     simp only [wfOp] at hw
     have hw' := hw
@@ -82,13 +96,13 @@ theorem step_wf {s : St} (hI : Inv s) (op : Op) (hw : wfOp s op = true) : isOk (
       obtain ⟨h1, h2, h3⟩ := hI.arc a c hc
       have hl : c.live = true := by rw [h2]; simp; omega
       have hs : c.strong ≠ 0 := by omega
-      (simp only [step, hw, if_true, decArc, hc, hl, hs, if_false, bind, Except.bind]; try rfl)
+      (simp only [step, stepClone, stepIntoOwned, hw, if_true, decArc, hc, hl, hs, if_false, bind, Except.bind]; try rfl)
   | fromBorrowed c =>
     have hc : ¬ usizeMax ≤ c.length := by simp [wfOp] at hw; omega
     have hI' := inv_pushStatic hI c (by omega)
     have hb := bindNew_ok (s := { s with statics := s.statics ++ [c] })
       (v := ⟨.stat s.statics.length, c.length, 0⟩) (g := c) hI'
-    (simp only [step, hc, if_false, borrowedIntoParts, hb, bind, Except.bind]; try rfl)
+    (simp only [step, stepClone, stepIntoOwned, hc, if_false, borrowedIntoParts, hb, bind, Except.bind]; try rfl)
   | fromOwned c cap =>
     simp [wfOp] at hw
     obtain ⟨hw1, hw2⟩ := hw
@@ -100,7 +114,7 @@ theorem step_wf {s : St} (hI : Inv s) (op : Op) (hw : wfOp s op = true) : isOk (
       simp [fromOwned, h1, h2, ownedIntoParts, h3]
     rw [hf] at hspec
     simp only at hspec
-    (simp only [step, hf, bind, Except.bind, bindNew_ok hspec]; try rfl)
+    (simp only [step, stepClone, stepIntoOwned, hf, bind, Except.bind, bindNew_ok hspec]; try rfl)
   | fromShared a =>
     simp only [wfOp] at hw
     unfold heldArc at hw
@@ -112,42 +126,57 @@ theorem step_wf {s : St} (hI : Inv s) (op : Op) (hw : wfOp s op = true) : isOk (
       have hl : c.live = true := by rw [h2]; simp; omega
       have hext : ¬ c.ext = 0 := by omega
       have hI' := inv_newShared hI a c hc hl
-      simp only [step, hc, hext, if_false, incStrong, bind, Except.bind]
+      simp only [step, stepClone, stepIntoOwned, hc, hext, if_false, incStrong, bind, Except.bind]
       rw [if_pos hl]
       simp only [bindNew_ok hI', isOk]
   | clone h =>
     obtain ⟨e, he⟩ := liveHandle_iff (by simpa [wfOp] using hw)
     obtain ⟨s1, v, hc, hI'⟩ := cloneFromParts_spec hI he
-    (simp only [step, getVal_of_some he, hc, bind, Except.bind, bindNew_ok hI']; try rfl)
+    (simp only [step, stepClone, stepIntoOwned, getVal_of_some he, hc, bind, Except.bind, bindNew_ok hI']; try rfl)
   | deref h =>
     obtain ⟨e, he⟩ := liveHandle_iff (by simpa [wfOp] using hw)
-    (simp only [step, getVal_of_some he, bind, Except.bind, read_ok (hI.ent h e he)]; try rfl)
+    (simp only [step, stepClone, stepIntoOwned, getVal_of_some he, bind, Except.bind, read_ok (hI.ent h e he)]; try rfl)
   | eq h1 h2 =>
     simp [wfOp] at hw
     obtain ⟨e1, he1⟩ := liveHandle_iff hw.1
     obtain ⟨e2, he2⟩ := liveHandle_iff hw.2
-    (simp only [step, getVal_of_some he1, getVal_of_some he2, bind, Except.bind,
+    (simp only [step, stepClone, stepIntoOwned, getVal_of_some he1, getVal_of_some he2, bind, Except.bind,
       read_ok (hI.ent h1 e1 he1), read_ok (hI.ent h2 e2 he2)]; try rfl)
   | intoOwned h fc =>
     obtain ⟨e, he⟩ := liveHandle_iff (by simpa [wfOp] using hw)
     obtain ⟨s1, o, hc, hI'⟩ := ownedFromParts_spec hI he fc
-    (simp only [step, getVal_of_some he, intoOwned, hc, bind, Except.bind, bindNew_ok hI']; try rfl)
+    (simp only [step, stepClone, stepIntoOwned, getVal_of_some he, intoOwned, hc, bind, Except.bind, bindNew_ok hI']; try rfl)
   | intoStdCow h fc =>
     obtain ⟨e, he⟩ := liveHandle_iff (by simpa [wfOp] using hw)
     cases hk : e.val.kind with
     | borrowed =>
       have hI' := inv_move hI h e he
-      (simp only [step, getVal_of_some he, hk, dropFromParts, bind, Except.bind, bindNew_ok hI']; try rfl)
+      (simp only [step, stepClone, stepIntoOwned, getVal_of_some he, hk, dropFromParts, bind, Except.bind, bindNew_ok hI']; try rfl)
     | owned =>
       obtain ⟨s1, o, hc, hI'⟩ := ownedFromParts_spec hI he fc
-      (simp only [step, getVal_of_some he, hk, intoOwned, hc, bind, Except.bind, bindNew_ok hI']; try rfl)
+      (simp only [step, stepClone, stepIntoOwned, getVal_of_some he, hk, intoOwned, hc, bind, Except.bind, bindNew_ok hI']; try rfl)
     | shared =>
       obtain ⟨s1, o, hc, hI'⟩ := ownedFromParts_spec hI he fc
-      (simp only [step, getVal_of_some he, hk, intoOwned, hc, bind, Except.bind, bindNew_ok hI']; try rfl)
+      (simp only [step, stepClone, stepIntoOwned, getVal_of_some he, hk, intoOwned, hc, bind, Except.bind, bindNew_ok hI']; try rfl)
   | drop h =>
     obtain ⟨e, he⟩ := liveHandle_iff (by simpa [wfOp] using hw)
     obtain ⟨s1, hc, hI'⟩ := dropFromParts_spec hI he
-    (simp only [step, getVal_of_some he, hc, bind, Except.bind]; try rfl)
+    (simp only [step, stepClone, stepIntoOwned, getVal_of_some he, hc, bind, Except.bind]; try rfl)
+  | intoOwnedUnwind h fc =>
+    obtain ⟨e, he⟩ := liveHandle_iff (by simpa [wfOp] using hw)
+    rcases ownedFromPartsUnwind_spec hI he with ⟨_, hu⟩ | ⟨_, hu, _⟩ | ⟨_, i, c, _, _, _, _, hu, _⟩
+    · obtain ⟨s1, o, hc, hI'⟩ := ownedFromParts_spec hI he fc
+      (simp only [step, stepClone, stepIntoOwned, stepIntoOwnedUnwind, stepIntoOwned, getVal_of_some he, hu, intoOwned, hc, bind,
+        Except.bind, bindNew_ok hI']; try rfl)
+    · (simp only [step, stepClone, stepIntoOwned, stepIntoOwnedUnwind, getVal_of_some he, hu]; try rfl)
+    · (simp only [step, stepClone, stepIntoOwned, stepIntoOwnedUnwind, getVal_of_some he, hu]; try rfl)
+  | cloneUnwind h =>
+    obtain ⟨e, he⟩ := liveHandle_iff (by simpa [wfOp] using hw)
+    rcases cloneFromPartsUnwind_spec hI he with ⟨_, hu⟩ | ⟨_, hu⟩
+    · (simp only [step, stepClone, stepIntoOwned, stepCloneUnwind, getVal_of_some he, hu]; try rfl)
+    · obtain ⟨s1, v, hc, hI'⟩ := cloneFromParts_spec hI he
+      (simp only [step, stepClone, stepIntoOwned, stepCloneUnwind, stepClone, getVal_of_some he, hu, hc, bind, Except.bind,
+        bindNew_ok hI']; try rfl)
 
 /-- **every well-formed sequence runs to the end**: if each operation refers to live handles / held `Arc`s
     in the state in which it executes (`wfRun`, a decidable check), no error of any kind occurs. -/
@@ -181,14 +210,14 @@ theorem reachable_inv {ops : List Op} {s : St} (h : run init ops = .ok s) : Inv 
 theorem deref_reads_built {ops : List Op} {s : St} (hr : run init ops = .ok s) {h : Nat} {e : Entry}
     (he : s.vals[h]? = some (some e)) : step s (.deref h) = .ok (s, .content e.built) := by
   have hI := reachable_inv hr
-  simp only [step, getVal_of_some he, bind, Except.bind, read_ok (hI.ent h e he)]
+  simp only [step, stepClone, stepIntoOwned, getVal_of_some he, bind, Except.bind, read_ok (hI.ent h e he)]
 
 /-- comparing two live values compares the contents they were built from -/
 theorem eq_compares_built {ops : List Op} {s : St} (hr : run init ops = .ok s) {h1 h2 : Nat} {e1 e2 : Entry}
     (he1 : s.vals[h1]? = some (some e1)) (he2 : s.vals[h2]? = some (some e2)) :
     step s (.eq h1 h2) = .ok (s, .bool (e1.built == e2.built)) := by
   have hI := reachable_inv hr
-  simp only [step, getVal_of_some he1, getVal_of_some he2, bind, Except.bind,
+  simp only [step, stepClone, stepIntoOwned, getVal_of_some he1, getVal_of_some he2, bind, Except.bind,
     read_ok (hI.ent h1 e1 he1), read_ok (hI.ent h2 e2 he2)]
 
 /-- a freshly constructed owned value — any length, any capacity, empty, capacity 0 — reads back the content
@@ -219,11 +248,11 @@ theorem clone_reads_same {ops : List Op} {s : St} (hr : run init ops = .ok s) {h
   obtain ⟨s1, v, hc, hI'⟩ := cloneFromParts_spec hI he
   have hv := cloneFromParts_vals hc
   refine ⟨pushVal s1 v e.built, s.vals.length, ?_, ?_⟩
-  · simp only [step, getVal_of_some he, hc, bind, Except.bind, bindNew_ok hI', hv]
+  · simp only [step, stepClone, stepIntoOwned, getVal_of_some he, hc, bind, Except.bind, bindNew_ok hI', hv]
   · have he' : (pushVal s1 v e.built).vals[h]? = some (some e) := by
       simp only [pushVal_vals, hv]
       exact getElem?_append_of_some _ _ _ _ he
-    simp only [step, getVal_of_some he', bind, Except.bind, read_ok (hI'.ent h e he')]
+    simp only [step, stepClone, stepIntoOwned, getVal_of_some he', bind, Except.bind, read_ok (hI'.ent h e he')]
 
 /-! ## no leak, no double free -/
 
@@ -348,10 +377,246 @@ theorem empty_with_capacity (cap : Nat) (h0 : cap ≠ 0) (hm : cap < usizeMax) :
   have hlt : ¬ usizeMax < cap := by omega
   have hk : kindOf cap = .owned := kindOf_owned h0 hm'
   refine ⟨?_, ?_, ?_⟩
-  · simp [step, fromOwned, ownedIntoParts, allocVec, h0, hm', hlt, bindNew, pushVal, readPtr, init, bind, Except.bind]
-  · simp [step, getVal, cloneFromParts, CowVal.kind, hk, readPtr, ownedIntoParts, allocVec, bindNew, pushVal,
+  · simp [step, stepClone, stepIntoOwned, fromOwned, ownedIntoParts, allocVec, h0, hm', hlt, bindNew, pushVal, readPtr, init, bind, Except.bind]
+  · simp [step, stepClone, stepIntoOwned, getVal, cloneFromParts, CowVal.kind, hk, readPtr, ownedIntoParts, allocVec, bindNew, pushVal,
       bind, Except.bind]
-  · simp [step, getVal, dropFromParts, CowVal.kind, hk, freeVec, h0, killVal, bind, Except.bind]
+  · simp [step, stepClone, stepIntoOwned, getVal, dropFromParts, CowVal.kind, hk, freeVec, h0, killVal, bind, Except.bind]
+
+/-! ## unwinding: the element type's `Clone` panics inside `into_owned` / `clone` and the caller catches it
+
+`run_inv`, `cow_safe`, `cow_no_leak`, `freed_at_most_once`, `unique_owner` above quantify over ALL `Op` sequences,
+which now include `intoOwnedUnwind` and `cloneUnwind` anywhere: a caught panic leaves a state from which every
+further sequence is still safe and leak-free.  The two theorems below say what exactly such a call leaves. -/
+
+/-- **a failed `into_owned` gives back exactly what it held**: in every reachable state, for a live value `h`,
+    * Owned: no user code runs — the call cannot unwind and is the ordinary `into_owned`;
+    * Borrowed: the value is consumed, the heap is untouched (the partial copy is never a buffer);
+    * Shared: the value is consumed and the block's strong count goes down by exactly ONE (not zero: that would
+      leak the reference `self` held; not two: that is what running `self`'s destructor as well would do) —
+      no buffer, no other block, no other value changes. -/
+theorem intoOwnedUnwind_gives_back_once {ops : List Op} {s : St} (hr : run init ops = .ok s) {h : Nat} {e : Entry}
+    (he : s.vals[h]? = some (some e)) (fc : Nat) :
+    (e.val.kind = .owned ∧ step s (.intoOwnedUnwind h fc) = step s (.intoOwned h fc)) ∨
+    (e.val.kind = .borrowed ∧ step s (.intoOwnedUnwind h fc) = .ok (killVal s h, .unwound)) ∨
+    (e.val.kind = .shared ∧ ∃ i c, e.val.ptr = .arc i ∧ s.arcs[i]? = some c ∧ (c.dec 0).strong + 1 = c.strong ∧
+      (c.dec 0).ext = c.ext ∧
+      step s (.intoOwnedUnwind h fc) = .ok (killVal { s with arcs := s.arcs.set i (c.dec 0) } h, .unwound)) := by
+  have hI := reachable_inv hr
+  rcases ownedFromPartsUnwind_spec hI he with ⟨hk, hu⟩ | ⟨hk, hu, _⟩ | ⟨hk, i, c, hp, hc, _, hpos, hu, _⟩
+  · refine Or.inl ⟨hk, ?_⟩
+    simp only [step, stepIntoOwned, stepIntoOwnedUnwind, getVal_of_some he, hu]
+  · refine Or.inr (Or.inl ⟨hk, ?_⟩)
+    simp only [step, stepClone, stepIntoOwned, stepIntoOwnedUnwind, getVal_of_some he, hu]
+  · refine Or.inr (Or.inr ⟨hk, i, c, hp, hc, ?_, ?_, ?_⟩)
+    · simp only [ArcCell.dec]; omega
+    · simp [ArcCell.dec]
+    · simp only [step, stepClone, stepIntoOwned, stepIntoOwnedUnwind, getVal_of_some he, hu]
+
+/-- **a failed `clone` changes nothing**: for an Owned source the state is untouched (the source keeps its buffer
+    and content, no new value or buffer exists); Borrowed and Shared clones run no user code and are the ordinary
+    `clone` -/
+theorem cloneUnwind_changes_nothing {ops : List Op} {s : St} (hr : run init ops = .ok s) {h : Nat} {e : Entry}
+    (he : s.vals[h]? = some (some e)) :
+    (e.val.kind = .owned ∧ step s (.cloneUnwind h) = .ok (s, .unwound)) ∨
+    (e.val.kind ≠ .owned ∧ step s (.cloneUnwind h) = step s (.clone h)) := by
+  have hI := reachable_inv hr
+  rcases cloneFromPartsUnwind_spec hI he with ⟨hk, hu⟩ | ⟨hk, hu⟩
+  · refine Or.inl ⟨hk, ?_⟩
+    simp only [step, stepClone, stepIntoOwned, stepCloneUnwind, getVal_of_some he, hu]
+  · refine Or.inr ⟨hk, ?_⟩
+    simp only [step, stepClone, stepCloneUnwind, getVal_of_some he, hu]
+
+/-- the variant `let owned = T::owned_from_parts(..); mem::forget(self); owned` of `into_owned` (the
+    `ManuallyDrop` taken AFTER the call that may unwind): when the copy unwinds, `self` is still armed and
+    `Cow::drop` runs on top of what `owned_from_parts` already gave back -/
+def stepIntoOwnedUnwindLate (s : St) (h : Nat) : Except Err (St × Ans) :=
+  match getVal s h with
+  | .error er => .error er
+  | .ok e =>
+    match ownedFromPartsUnwind s e.val with
+    | .error er => .error er
+    | .ok (some s1) =>
+      match dropFromParts s1 e.val with
+      | .ok s2 => .ok (killVal s2 h, .unwound)
+      | .error er => .error er
+    | .ok none => stepIntoOwned s h 0
+
+/-- **why the `ManuallyDrop` must come first** (negation by witness): with the forget-after variant, one caller
+    `Arc` shared with one value, then a failed `into_owned`: the block is freed while the caller still holds its
+    reference (`ext = 1`, not live) — the caller's next use of its `Arc` is a use after free; with two values
+    sharing it, the count says 1 for two holders.  Both states violate `unique_owner`. -/
+theorem forget_after_call_unsound :
+    (∃ s s' c, run init [.newArc [1, 2], .fromShared 0] = .ok s ∧ stepIntoOwnedUnwindLate s 0 = .ok (s', .unwound)
+        ∧ s'.arcs[0]? = some c ∧ c.ext = 1 ∧ c.live = false ∧ errIsArc (step s' (.dropArc 0)))
+    ∧ (∃ s s' c, run init [.newArc [1, 2], .fromShared 0, .clone 0] = .ok s
+        ∧ stepIntoOwnedUnwindLate s 0 = .ok (s', .unwound)
+        ∧ s'.arcs[0]? = some c ∧ c.strong = 1 ∧ c.ext + arcRefs s' 0 = 2) := by
+  refine ⟨?_, ?_⟩
+  · refine ⟨_, _, _, rfl, rfl, rfl, ?_⟩
+    decide
+  · refine ⟨_, _, _, rfl, rfl, rfl, ?_⟩
+    decide
+
+/-- the variant of `From<Cow<T>> for std::borrow::Cow<T>` that hands out a Shared value as `Borrowed(&*ptr)`
+    ("no copy for shared"): `value` is dropped at the end of `from`, the reference outlives it -/
+def intoStdSharedAsBorrowed (s : St) (h : Nat) : Except Err (St × Nat × Content) := do
+  let e ← getVal s h
+  let s1 ← dropFromParts s e.val
+  bindNew (killVal s1 h) { e.val with cap := 0 } e.built
+
+/-- **a Shared value must be copied on the way into `std::borrow::Cow`** (negation by witness): when the value is
+    the last owner of the block, the `Borrowed` reference of the variant reads freed memory at once -/
+theorem into_std_shared_must_copy :
+    ∃ s, run init [.newArc [7], .fromShared 0, .dropArc 0] = .ok s
+      ∧ errIs (intoStdSharedAsBorrowed s 0) .readFreed = true
+      ∧ isOk (step s (.intoStdCow 0 1)) = true := ⟨_, rfl, by decide, by decide⟩
+
+/-! ## facts of the source that no run can observe (tools/extract.py → Generated/SourceFacts.lean) -/
+
+/-- reading of the arms of `Metadata::kind` as a first-match decision on the capacity word -/
+def kindByArms : List (String × String) → Nat → Option Kind
+  | [], _ => none
+  | (pat, val) :: rest, cap =>
+    let hit : Option Bool :=
+      if pat = "(_, usize::MAX)" then some (decide (cap = usizeMax))
+      else if pat = "(_, 0)" then some (decide (cap = 0))
+      else if pat = "_" then some true
+      else none
+    let k : Option Kind :=
+      if val = "Kind::Shared" then some .shared
+      else if val = "Kind::Borrowed" then some .borrowed
+      else if val = "Kind::Owned" then some .owned
+      else none
+    match hit, k with
+    | some true, some k => some k
+    | some false, some _ => kindByArms rest cap
+    | _, _ => none
+
+/-- **kind decoding**: the arms of `Metadata::kind` in the source, read in source order as a first-match decision
+    on the capacity word, are `kindOf` for EVERY capacity (so reordering, dropping or re-targeting an arm breaks
+    this theorem) -/
+theorem src_kind_decoding (cap : Nat) : kindByArms Generated.cow_kind_arms cap = some (kindOf cap) := by
+  have h : Generated.cow_kind_arms
+      = [("(_, usize::MAX)", "Kind::Shared"), ("(_, 0)", "Kind::Borrowed"), ("_", "Kind::Owned")] := rfl
+  rw [h]
+  unfold kindOf
+  have hz : ¬ ((0 : Nat) = usizeMax) := by decide
+  by_cases h1 : cap = usizeMax
+  · simp [kindByArms, h1]
+  · by_cases h2 : cap = 0
+    · subst h2
+      simp [kindByArms, hz]
+    · simp [kindByArms, h1, h2]
+
+/-- **`into_owned` disarms `self` before anything that can unwind**: its statements are exactly
+    `ManuallyDrop::new(self)` and then `owned_from_parts` on the wrapped value — `stepIntoOwnedUnwind`
+    (not `stepIntoOwnedUnwindLate`, see `forget_after_call_unsound`); `Cow::drop` is one unconditional
+    `drop_from_parts`, `from_owned` checks the capacity word after taking the value apart -/
+theorem src_into_owned_manuallydrop_first :
+    Generated.cow_into_owned_stmts
+      = ["let cow = ManuallyDrop::new(self)", "T::owned_from_parts(cow.ptr, &cow.metadata)"]
+    ∧ Generated.cow_drop_stmts = ["T::drop_from_parts(self.ptr, &self.metadata)"]
+    ∧ Generated.cow_from_owned_stmts
+      = ["let (ptr, metadata) = T::owned_into_parts(owned)",
+         "if metadata.capacity() == usize::MAX { panic!(\"Invalid capacity of `usize::MAX` for owned value.\"); } Self::from_parts(ptr, metadata)"] :=
+  ⟨rfl, rfl, rfl⟩
+
+/-- **per-kind dispatch of `impl Cowable for str`** — `ownedFromParts` / `cloneFromParts` / `dropFromParts`:
+    Borrowed copies / copies the words / does nothing; Owned rebuilds from `(ptr, len, capacity)` / deep-copies
+    and takes the parts OF THE COPY (`owned_into_parts(s.to_string())`: pointer and metadata both from the new
+    value) / frees with `(len, capacity)`; Shared re-materialises the `Arc` BEFORE copying / increments / decrements -/
+theorem src_dispatch_str :
+    Generated.cow_str_owned_from_parts_arms
+      = [("Kind::Borrowed", "{ let s = UNSAFE { &*Self::borrowed_from_parts(ptr, metadata) }; s.to_owned() }"),
+         ("Kind::Owned", "UNSAFE { String::from_raw_parts(ptr.as_ptr(), metadata.len(), metadata.capacity()) }"),
+         ("Kind::Shared", "{ let s = UNSAFE { Arc::from_raw(Self::borrowed_from_parts(ptr, metadata)) }; s.to_string() }")]
+    ∧ Generated.cow_str_clone_from_parts_arms
+      = [("Kind::Borrowed", "(ptr, *metadata)"),
+         ("Kind::Owned", "{ let s = UNSAFE { &*Self::borrowed_from_parts(ptr, metadata) }; Self::owned_into_parts(s.to_string()) }"),
+         ("Kind::Shared", "clone_shared::<Self>(ptr, metadata)")]
+    ∧ Generated.cow_str_drop_from_parts_arms
+      = [("Kind::Borrowed", "{}"),
+         ("Kind::Owned", "UNSAFE { drop(Vec::from_raw_parts(ptr.as_ptr(), metadata.len(), metadata.capacity())) }"),
+         ("Kind::Shared", "UNSAFE { drop(Arc::from_raw(Self::borrowed_from_parts(ptr, metadata))) }")] :=
+  ⟨rfl, rfl, rfl⟩
+
+/-- **per-kind dispatch of `impl<T: Clone> Cowable for [T]`** — the same three functions of the model -/
+theorem src_dispatch_slice :
+    Generated.cow_slice_owned_from_parts_arms
+      = [("Kind::Borrowed", "{ let data = UNSAFE { &*Self::borrowed_from_parts(ptr, metadata) }; data.to_vec() }"),
+         ("Kind::Owned", "UNSAFE { Vec::from_raw_parts(ptr.as_ptr(), metadata.len(), metadata.capacity()) }"),
+         ("Kind::Shared", "{ let arc = UNSAFE { Arc::from_raw(Self::borrowed_from_parts(ptr, metadata)) }; arc.to_vec() }")]
+    ∧ Generated.cow_slice_clone_from_parts_arms
+      = [("Kind::Borrowed", "(ptr, *metadata)"),
+         ("Kind::Owned", "{ let vec_ptr = Self::borrowed_from_parts(ptr, metadata); let new_vec = UNSAFE { vec_ptr.as_ref().unwrap().to_vec() }; Self::owned_into_parts(new_vec) }"),
+         ("Kind::Shared", "clone_shared::<Self>(ptr, metadata)")]
+    ∧ Generated.cow_slice_drop_from_parts_arms
+      = [("Kind::Borrowed", "{}"),
+         ("Kind::Owned", "UNSAFE { drop(Vec::from_raw_parts(ptr.as_ptr(), metadata.len(), metadata.capacity())) }"),
+         ("Kind::Shared", "UNSAFE { drop(Arc::from_raw(Self::borrowed_from_parts(ptr, metadata))) }")]
+    ∧ Generated.cow_clone_shared_stmts
+      = ["let arc_ptr = T::borrowed_from_parts(ptr, metadata)",
+         "UNSAFE { Arc::increment_strong_count(arc_ptr); } (ptr, *metadata)"] :=
+  ⟨rfl, rfl, rfl, rfl⟩
+
+/-- **taking values apart** — `borrowedIntoParts` / `ownedIntoParts` / the `fromShared` arm of `step`: the length
+    word is the ELEMENT count (`len()`, never a byte size) for both implementors, the capacity word is the
+    value's own capacity / `usize::MAX` / 0, owned values are wrapped in `ManuallyDrop`, `Arc::into_raw` keeps
+    the reference -/
+theorem src_into_parts :
+    Generated.cow_str_shared_into_parts_stmts
+      = ["let metadata = Metadata::shared(arc.len())",
+         "let ptr = UNSAFE { NonNull::new_unchecked(Arc::into_raw(arc) as *mut _) }", "(ptr, metadata)"]
+    ∧ Generated.cow_slice_shared_into_parts_stmts = Generated.cow_str_shared_into_parts_stmts
+    ∧ Generated.cow_str_owned_into_parts_stmts
+      = ["let mut owned = ManuallyDrop::new(owned.into_bytes())",
+         "let ptr = UNSAFE { NonNull::new_unchecked(owned.as_mut_ptr()) }",
+         "let metadata = Metadata::owned(owned.len(), owned.capacity())", "(ptr, metadata)"]
+    ∧ Generated.cow_slice_owned_into_parts_stmts
+      = ["let mut owned = ManuallyDrop::new(owned)",
+         "let ptr = UNSAFE { NonNull::new_unchecked(owned.as_mut_ptr()) }",
+         "let metadata = Metadata::owned(owned.len(), owned.capacity())", "(ptr, metadata)"]
+    ∧ Generated.cow_str_borrowed_into_parts_stmts
+      = ["let ptr = UNSAFE { NonNull::new_unchecked(self.as_ptr() as *mut _) }",
+         "let metadata = Metadata::borrowed(self.len())", "(ptr, metadata)"]
+    ∧ Generated.cow_slice_borrowed_into_parts_stmts = Generated.cow_str_borrowed_into_parts_stmts
+    ∧ Generated.cow_str_borrowed_from_parts_stmts = ["slice_from_raw_parts(ptr.as_ptr(), metadata.len()) as *const _"]
+    ∧ Generated.cow_slice_borrowed_from_parts_stmts = Generated.cow_str_borrowed_from_parts_stmts :=
+  ⟨rfl, rfl, rfl, rfl, rfl, rfl, rfl, rfl⟩
+
+/-- **constructor lifetimes**: the three borrowing constructors take `&'a _` where `'a` is the lifetime
+    parameter of the `Cow<'a, _>` they return (their bodies go through raw pointers, so the compiler would accept
+    an unconstrained `&T` just as well — and every borrow the harness can make is `'static`); the owning
+    constructors and `into_owned` live in the lifetime-agnostic block — the model's statics are immortal
+    *because* of this -/
+theorem src_ctor_lifetimes :
+    Generated.cow_ctor_sigs
+      = [("impl<'a, T> Cow<'a, T> where T: Cowable + ?Sized,", "pub fn from_borrowed(borrowed: &'a T) -> Self"),
+         ("impl<'a, T> Cow<'a, [T]> where T: Clone,", "pub const fn const_slice(val: &'a [T]) -> Cow<'a, [T]>"),
+         ("impl<'a> Cow<'a, str>", "pub const fn const_str(val: &'a str) -> Self"),
+         ("impl<T> Cow<'_, T> where T: Cowable + ?Sized,", "pub fn from_owned(owned: T::Owned) -> Self"),
+         ("impl<T> Cow<'_, T> where T: Cowable + ?Sized,", "pub fn from_shared(arc: Arc<T>) -> Self"),
+         ("impl<T> Cow<'_, T> where T: Cowable + ?Sized,", "pub fn into_owned(self) -> <T as ToOwned>::Owned")] := rfl
+
+/-- **`Send` / `Sync`**: the only `unsafe impl`s of the file, each bounded by the SAME auto trait on `T`
+    (`Sync` for `Sync`, `Send` for `Send`) — the instantiations the harness can run (`str`, `Label`, `D`) are all
+    `Send + Sync` and cannot tell; the harness additionally refuses to compile if `Cow<[Rc<_>]>` is `Send`/`Sync` -/
+theorem src_send_sync_bounds :
+    Generated.cow_auto_trait_impls
+      = ["UNSAFE impl<T: Cowable + Sync + ?Sized> Sync for Cow<'_, T>",
+         "UNSAFE impl<T: Cowable + Send + ?Sized> Send for Cow<'_, T>"] := rfl
+
+/-- **conversion to `std::borrow::Cow`**: the impl still has the implicit `T: Sized` bound (no `?Sized`), which no
+    implementor of `Cowable` meets — it cannot be called, which is why no correspondence stream drives it; and
+    its arms are the model's `intoStdCow`: Owned and Shared go through `into_owned` (a copy for Shared — see
+    `into_std_shared_must_copy`), only Borrowed hands the reference out.  If the bound is relaxed this theorem
+    breaks and the conversion has to be driven by the harness. -/
+theorem src_into_std_uncallable :
+    Generated.cow_into_std_header = "impl<'a, T: Cowable> From<Cow<'a, T>> for std::borrow::Cow<'a, T>"
+    ∧ Generated.cow_into_std_arms
+      = [("Kind::Owned | Kind::Shared", "Self::Owned(value.into_owned())"),
+         ("Kind::Borrowed", "{ Self::Borrowed(UNSAFE { &*T::borrowed_from_parts(value.ptr, &value.metadata) }) }")] :=
+  ⟨rfl, rfl⟩
 
 /-! ## non-vacuity: concrete sequences (evaluated by the kernel) -/
 
@@ -381,11 +646,6 @@ example : (match run init demo with
                 && s.arcs.all (fun c => !c.live && c.frees == 1 && c.strong == 0) && s.vecs.length == 4
     | .error _ => false) = true := by decide
 
-def errIs {α} (x : Except Err α) (e : Err) : Bool :=
-  match x with
-  | .error e' => e' == e
-  | .ok _ => false
-
 /-- the error states are reachable by *ill-behaved* callers of the primitives — the model can tell: freeing
     the same buffer twice is caught, so `cow_safe` is not true by construction -/
 example : errIs (do
@@ -408,6 +668,24 @@ example : errIs (do
 example : errIs (do
     let (s1, v) ← fromOwned init [1, 2] 4
     dropFromParts s1 { v with cap := 2 }) .badLayout = true := by decide
+
+/-- unwinding ops inside a longer sequence: the failed `into_owned` of a shared value gives one reference back,
+    the failed `clone` of an owned value leaves it usable; everything is released exactly once at the end -/
+def demoUnwind : List Op :=
+  [ .newArc [1, 2, 3], .fromShared 0, .clone 0,      -- a0, h0, h1 (strong 3)
+    .intoOwnedUnwind 0 3,                            -- unwinds: strong 2, h0 consumed
+    .fromOwned [4, 5] 6, .cloneUnwind 2,             -- h2 owned; its clone unwinds: nothing changes
+    .cloneUnwind 1,                                  -- shared: no user code, ordinary clone → h3 (strong 3)
+    .intoOwnedUnwind 2 0,                            -- owned: cannot unwind, ordinary into_owned → h4
+    .fromBorrowed [9], .intoOwnedUnwind 5 1,         -- h5 borrowed: consumed
+    .drop 1, .drop 3, .drop 4, .dropArc 0 ]
+
+example : wfRun init demoUnwind = true := by decide
+
+example : (match run init demoUnwind with
+    | .ok s => s.vals.all (·.isNone) && liveAllocs s == 0 && s.vecs.all (fun c => !c.live && c.frees == 1)
+                && s.arcs.all (fun c => !c.live && c.frees == 1 && c.strong == 0) && s.vecs.length == 1
+    | .error _ => false) = true := by decide
 
 /-- a caller error is reported as such, not as a memory error -/
 example : (match run init [.fromOwned [1] 4, .drop 0, .deref 0] with
